@@ -37,6 +37,8 @@ pub struct World {
     pub approved: Vec<(Vec<u8>, Vec<u8>, Vec<u8>, Vec<u8>)>,
     pub hub_set: bool,
     pub eth_set: bool,
+    /// every token id a registration / deployment was attempted for (manager possibly without a token yet)
+    pub ids: Vec<Vec<u8>>,
 }
 
 #[derive(Clone, PartialEq)]
@@ -128,7 +130,9 @@ impl World {
         sink.exec(&format!("bal {} {}", hex::encode(&self.gs), t));
         sink.exec(&format!("bal {} {}", hex::encode(user(rng.below(6) as u8)), t));
         if self.next_tm > 0 {
-            sink.exec(&format!("bal {} {}", hex::encode(tm_addr(rng.below(self.next_tm as u64) as usize)), t));
+            let tm = tm_addr(rng.below(self.next_tm as u64) as usize);
+            sink.exec(&format!("bal {} {}", hex::encode(&tm), t));
+            sink.exec(&format!("query {} getImplementationTypeAndTokenIdentifier -", hex::encode(&tm)));
         }
     }
 }
@@ -195,6 +199,7 @@ pub fn setup(rng: &mut Rng, sink: &mut Sink) -> World {
         approved: vec![],
         hub_set,
         eth_set,
+        ids: vec![],
     };
     // canonical token (lock/unlock)
     let out = w.tx(sink, &user(1), "registerCanonicalInterchainToken", 0, "-", &[TOK.as_bytes().to_vec()]);
@@ -240,6 +245,11 @@ pub fn factory_flow(rng: &mut Rng, sink: &mut Sink, w: &mut World, deployer: &[u
     let out = w.tx(sink, deployer, "deployInterchainToken", 0, "-", &a);
     w.track(&out, PendK::Issue);
     let tid = result_bytes(&out);
+    if let Some(t) = tid.clone() {
+        if !w.ids.contains(&t) {
+            w.ids.push(t);
+        }
+    }
     if !complete && rng.chance(1, 3) {
         return;
     }
@@ -302,7 +312,9 @@ fn pick_token(rng: &mut Rng, w: &World) -> (Vec<u8>, String, u8) {
 
 fn inbound_source(rng: &mut Rng, payload: &[u8]) -> (Vec<u8>, Vec<u8>, Vec<u8>) {
     // (source chain, source address, payload as sent): direct from ethereum, or wrapped by the hub
-    match rng.below(10) {
+    match rng.below(12) {
+        10 => (b"nowhere".to_vec(), vec![], payload.to_vec()), // chain without a trusted address, empty source address
+        11 => (rng.pick(&[ETH.to_vec(), b"polygon".to_vec(), b"nowhere".to_vec()]).clone(), rng.pick(&[vec![], b"hub".to_vec(), ETH_ITS.to_vec()]).clone(), payload.to_vec()),
         0..=4 => (ETH.to_vec(), ETH_ITS.to_vec(), payload.to_vec()),
         5..=7 => (HUB.to_vec(), HUB_ITS.to_vec(), hub_wrap(4, AVA, payload)),
         8 => (HUB.to_vec(), HUB_ITS.to_vec(), hub_wrap(4, ETH, payload)), // original chain not hub-routed
@@ -521,7 +533,89 @@ fn step(rng: &mut Rng, sink: &mut Sink, w: &mut World, focus: &str) {
         }
         5 => {
             // registrations / deployments aimed at the same or colliding ids
-            match rng.below(9) {
+            match rng.below(11) {
+                10 => {
+                    // a second registration aimed at a token id that already has a manager — with or without a token
+                    // recorded — over a route that is otherwise valid
+                    if rng.chance(1, 2) || w.ids.is_empty() {
+                        let salt = vec![rng.below(3) as u8 + 30; 32];
+                        let d = user(rng.below(3) as u8 + 1);
+                        let a = vec![salt, b"My Token".to_vec(), b"MTK".to_vec(), vec![18], nat(500), user(4)];
+                        let out = w.tx(sink, &d, "deployInterchainToken", 0, "-", &a);
+                        w.track(&out, PendK::Issue);
+                        if let Some(t) = result_bytes(&out) {
+                            if !w.ids.contains(&t) {
+                                w.ids.push(t);
+                            }
+                        }
+                    }
+                    if !w.ids.is_empty() {
+                        let tid = rng.pick(&w.ids).clone();
+                        w.query(sink, "invalidTokenManagerAddress", &[tid.clone()]);
+                        let inner = if rng.chance(2, 3) {
+                            let ty = *rng.pick(&[1u8, 2, 3, 4]);
+                            let dst_tok: Vec<u8> = rng.pick(&[TOK.as_bytes().to_vec(), MB.as_bytes().to_vec(), OTH.as_bytes().to_vec()]).clone();
+                            let lp = if rng.chance(1, 2) { vec![] } else { user(3) };
+                            link_payload(&tid, ty, b"0xSrcToken", &dst_tok, &lp)
+                        } else {
+                            deploy_payload(&tid, b"Remote Token", b"RTK", 6, &[])
+                        };
+                        let (chain, src, payload) = if rng.chance(1, 2) { (ETH.to_vec(), ETH_ITS.to_vec(), inner.clone()) } else { (HUB.to_vec(), HUB_ITS.to_vec(), hub_wrap(4, AVA, &inner)) };
+                        let id = w.approve(rng, sink, &chain, &src, &payload, None);
+                        w.execute(sink, &caller, &chain, &id, &src, &payload, 0);
+                        w.query(sink, "invalidTokenManagerAddress", &[tid.clone()]);
+                        w.query(sink, "deployedTokenManager", &[tid]);
+                    }
+                }
+                9 => {
+                    // several issuances in flight on one manager, delivered with mixed outcomes
+                    let salt = vec![rng.below(3) as u8 + 20; 32];
+                    let d = user(rng.below(3) as u8 + 1);
+                    let minter = user(rng.below(6) as u8);
+                    let a = vec![salt.clone(), b"My Token".to_vec(), b"MTK".to_vec(), vec![18], nat(*rng.pick(&[0u128, 500])), minter];
+                    let out = w.tx(sink, &d, "deployInterchainToken", 0, "-", &a);
+                    w.track(&out, PendK::Issue);
+                    let tid = result_bytes(&out);
+                    let tm = if out.starts_with("ok") && w.next_tm > 0 { Some(tm_addr(w.next_tm - 1)) } else { None };
+                    let k = rng.range(2, 3);
+                    let mut mine = vec![];
+                    for _ in 0..k {
+                        let before = w.next_pend;
+                        let out = w.tx(sink, &d, "deployInterchainToken", 50000000000000000, "-", &a);
+                        w.track(&out, PendK::Issue);
+                        for id in before..w.next_pend {
+                            mine.push(id);
+                        }
+                    }
+                    if rng.chance(3, 4) {
+                        // deliver and call back in a random order
+                        let mut order = mine.clone();
+                        if rng.chance(1, 2) {
+                            order.reverse();
+                        }
+                        for id in order.iter() {
+                            let newtok = format!("DTK-{:06x}", rng.below(0xffffff));
+                            let line = if rng.chance(2, 3) { format!("deliver {} ok {}", id, hex::encode(newtok.as_bytes())) } else { format!("deliver {} fail", id) };
+                            sink.exec(&line);
+                        }
+                        if rng.chance(1, 2) {
+                            order.reverse();
+                        }
+                        for id in order.iter() {
+                            sink.exec(&format!("cb {}", id));
+                            if let Some(tm) = tm.clone() {
+                                sink.exec(&format!("query {} tokenIdentifier -", hex::encode(&tm)));
+                            }
+                            if let Some(t) = tid.clone() {
+                                w.query(sink, "registeredTokenIdentifier", &[t]);
+                            }
+                        }
+                        w.pend.retain(|p| !mine.contains(&p.0));
+                        // the third transaction of the flow (mint + hand-over) and one more attempt
+                        let out = w.tx(sink, &d, "deployInterchainToken", 0, "-", &a);
+                        w.track(&out, PendK::Issue);
+                    }
+                }
                 0 => {
                     let t = rng.pick(&[TOK, MB, OTH, "EGLD", "bad"]).as_bytes().to_vec();
                     let out = w.tx(sink, &caller, "registerCanonicalInterchainToken", 0, "-", &[t.clone()]);
@@ -566,6 +660,9 @@ fn step(rng: &mut Rng, sink: &mut Sink, w: &mut World, focus: &str) {
                         1 => user(4),
                         _ => vec![1, 2, 3],
                     };
+                    if !w.ids.contains(&tid) {
+                        w.ids.push(tid.clone());
+                    }
                     let inner = deploy_payload(&tid, b"Remote Token", b"RTK", 6, &minter);
                     let (chain, src, payload) = inbound_source(rng, &inner);
                     let id = if rng.chance(1, 8) {
@@ -588,7 +685,13 @@ fn step(rng: &mut Rng, sink: &mut Sink, w: &mut World, focus: &str) {
                 }
                 6 => {
                     // inbound link-token message
-                    let tid = vec![rng.below(4) as u8 + 60; 32];
+                    let tid = if !w.ids.is_empty() && rng.chance(1, 2) {
+                        rng.pick(&w.ids).clone() // a token id that already has a manager (possibly without a token yet)
+                    } else if !w.tokens.is_empty() && rng.chance(1, 4) {
+                        rng.pick(&w.tokens).0.clone()
+                    } else {
+                        vec![rng.below(4) as u8 + 60; 32]
+                    };
                     let ty = rng.below(6) as u8;
                     let dst_tok: Vec<u8> = rng.pick(&[TOK.as_bytes().to_vec(), b"bad-token".to_vec(), MB.as_bytes().to_vec()]).clone();
                     let lp = if rng.chance(1, 2) { vec![] } else { user(3) };
